@@ -15,6 +15,9 @@ Gcd(a, b) == IF b = 0 THEN a ELSE Gcd(b, a % b)
 Lcm(a, b) == (a \div Gcd(a, b)) * b
 Norm(r) == IF r[1] = 0 THEN <<0, 1>>
            ELSE LET s == IF r[2] < 0 THEN -1 ELSE 1  g == Gcd(Abs(r[1]), Abs(r[2])) IN <<(s * r[1]) \div g, (s * r[2]) \div g>>
+\* product of two rationals, cross-reduced first so that the intermediate products stay small
+RatMul(x, y) == LET g1 == Gcd(Abs(x[1]), y[2])  g2 == Gcd(Abs(y[1]), x[2])
+                IN Norm(<<(x[1] \div g1) * (y[1] \div g2), (x[2] \div g2) * (y[2] \div g1)>>)
 MaxOf(S) == CHOOSE x \in S : \A y \in S : y <= x
 MinOf(S) == CHOOSE x \in S : \A y \in S : x <= y
 
